@@ -33,8 +33,6 @@ def prepare_scratch(modules):
         with open(owner, 'a') as f:
             f.write(f'\n#[cfg(kani)]\n#[path = "{mod}"]\nmod {info["name"]};\n')
         injected.append(f'{info["owner"]} += mod {info["name"]} ({mod})')
-    for gen in KS.GENERATED.values():
-        pass
     return d, injected
 
 
@@ -88,6 +86,14 @@ def run_harnesses(set_name, tier='quick', prop=None):
     t0 = time.time()
     try:
         d, inj = prepare_scratch(modules)
+        fp = getattr(KS, 'FEATURE_PATCH', {}).get(set_name)
+        if fp:
+            cp = os.path.join(d, fp[0])
+            txt = open(cp).read()
+            if fp[1] not in txt:
+                raise RuntimeError(f'feature patch anchor not found in {fp[0]}')
+            open(cp, 'w').write(txt.replace(fp[1], fp[2]))
+            inj.append(f'{fp[0]}: default features += tls, serde (scratch copy only)')
     except Exception as e:
         return {'evidence': ev, 'harness_results': [], 'error': f'scratch preparation failed: {e}', 'assumptions': []}
     ev['injected'] = inj
@@ -143,4 +149,7 @@ def run_harnesses(set_name, tier='quick', prop=None):
 if __name__ == '__main__':
     import json
     r = run_harnesses(sys.argv[1], tier=sys.argv[2] if len(sys.argv) > 2 else 'quick')
-    print(json.dumps(r, indent=1)[:6000])
+    for h in r['harness_results']:
+        print(h['name'], h['status'], h.get('time_s'), (h.get('failed_check') or h.get('reason') or '')[:200])
+    if r.get('error'):
+        print('ERROR', r['error'][:2000])
